@@ -576,7 +576,11 @@ func runC18(c *Ctx) {
 			}
 		}
 	}
-	for i := 0; i < 6; i++ {
+	ndry := 6
+	if chunkMode == 1 {
+		ndry = 40 // one byte per read: a value derived from a single read has at most 256 outcomes
+	}
+	for i := 0; i < ndry; i++ {
 		h, err := DryHello(negCfg(), f.IDI.ID, f.Spec())
 		if err != nil {
 			break
@@ -607,6 +611,21 @@ func runC18(c *Ctx) {
 				c.Violate("key-share-repeats "+f.Kind, "%s: hellos %d and %d carry the same share for group %d", c.R.Class, j, i, k.Group)
 			}
 			seenShare[key] = i
+			// a hybrid share has two independently generated halves: neither may repeat on its own
+			// (a half derived from a short read of Config.Rand repeats although the whole share does not)
+			if want := shareSize[k.Group]; (k.Group == 0x11ec || k.Group == 0x6399) && len(k.Data) == want {
+				cut := 1184
+				if k.Group == 0x6399 {
+					cut = 32
+				}
+				for hi, half := range [][]byte{k.Data[:cut], k.Data[cut:]} {
+					hk := fmt.Sprintf("%d/%d:%x", k.Group, hi, half)
+					if j, dup := seenShare[hk]; dup && !sameConn(hellos, i, j) {
+						c.Violate(fmt.Sprintf("key-share-half-repeats group=%d %s chunk=%d", k.Group, f.Kind, chunkMode), "%s: hellos %d and %d carry the same %s half of the hybrid share", c.R.Class, j, i, []string{"first", "second"}[hi])
+					}
+					seenShare[hk] = i
+				}
+			}
 		}
 		if j, dup := seenRand[string(h.Random)]; dup && !sameConn(hellos, i, j) {
 			c.Violate("client-random-repeats "+f.Kind, "%s: hellos %d and %d", c.R.Class, j, i)
